@@ -10,7 +10,7 @@ import os
 import re
 
 from .. import facts
-from ..cfg import Cfg
+from ..cfg import Cfg, bool_edges
 from ..prov import Prov
 from ..common import def_of, inst_of, method, arg_roots
 from ..prover import (Ctx, Lin, analyze, entails, counter_model, V_slice, V_int, UNKNOWN, V_opt, V_struct, struct_get, satisfiable, FALSE)
@@ -65,7 +65,7 @@ def run(ck, tier):
     except Exception as e:
         ck.refuted("R-C01-units", "internal:%s" % type(e).__name__, "", "rule could not run: %s" % e)
     from ..prover import Budget
-    for sub in (_consumers, _lexer, _loops, _spans, _precond, _total, _twin_scans, _md_breaks, _matchlen, _div, _intparse, _typst_range, _kept_neighbour):
+    for sub in (_consumers, _lexer, _loops, _indexed_cursor, _spans, _precond, _total, _twin_scans, _md_breaks, _matchlen, _div, _intparse, _typst_range, _kept_neighbour):
         try:
             sub(ck, p)
         except Budget as e:
@@ -501,6 +501,143 @@ def _loops(ck, p):
     ck.floor(rule, "natural loops in parser-side scope", n_loops, 12)
     ck.floor(rule, "get(cursor) sites with a monotone cursor", n_sites, 1)
 
+
+
+def _indexed_cursor(ck, p):
+    """A cursor that only grows inside a loop and indexes a slice there with a panicking index: some test inside
+    the loop has to look at the cursor (against a length, an end position), or the cursor is handed out by a range
+    iterator.  If every exit of the loop depends on the CONTENT of the elements only, a text in which that content
+    never comes makes the cursor reach the length and the index panics."""
+    rule = "R-C01-loops"
+    CMP = ("Lt", "Le", "Gt", "Ge", "Eq", "Ne")
+    n = 0
+    for f in sorted((g for g in p.fns.values() if DIV_SCOPE.match(g.name)), key=lambda g: g.name):
+        cfg = Cfg(f)
+        loops = cfg.natural_loops()
+        if not loops:
+            continue
+        bound_conds = [place_of(b["t"]["cond"]) for b in f.blocks if b["t"]["k"] == "assert" and b["t"].get("msg") == "bounds"]
+        done = set()
+        for h, body in loops.items():
+            for bi in sorted(body):
+                t = f.blocks[bi]["t"]
+                if t["k"] != "assert" or t.get("msg") != "bounds" or f.blocks[bi]["cleanup"]:
+                    continue
+                if any(bi in b2 and len(b2) < len(body) for h2, b2 in loops.items() if h2 != h):
+                    continue
+                ip = place_of(t["index"])
+                if not ip or len(ip) != 1:
+                    continue
+                cur = _copy_src(f, ip[0])
+                w = _writes_in(f, cur, body)
+                if not w or not all(x == "inc" for x in w) or (h, cur) in done:
+                    continue
+                done.add((h, cur))
+                copies = {cur}
+                grew = True
+                while grew:
+                    grew = False
+                    for b in f.blocks:
+                        for sx in b["s"]:
+                            if sx["k"] == "assign" and len(sx["lhs"]) == 1 and sx["rv"]["k"] == "use":
+                                pl = place_of(sx["rv"]["op"])
+                                if pl and len(pl) == 1 and pl[0] in copies and sx["lhs"][0] not in copies:
+                                    copies.add(sx["lhs"][0])
+                                    grew = True
+                # values that carry the cursor into a call: the argument tuple of a closure call, a range, a reference
+                carriers = set(copies)
+                grew = True
+                while grew:
+                    grew = False
+                    for b in f.blocks:
+                        for sx in b["s"]:
+                            if sx["k"] != "assign" or len(sx["lhs"]) != 1 or sx["lhs"][0] in carriers:
+                                continue
+                            rv = sx["rv"]
+                            ops = []
+                            if rv["k"] in ("agg", "tuple", "array"):
+                                ops = [place_of(o) for o in (rv.get("ops") or rv.get("fields") or []) if isinstance(o, dict)]
+                            elif rv["k"] == "ref":
+                                ops = [rv.get("place")]
+                            elif rv["k"] in ("use", "cast"):
+                                ops = [place_of(rv["op"])] if isinstance(rv.get("op"), dict) else []
+                            if any(o and o[0] in carriers for o in ops):
+                                carriers.add(sx["lhs"][0])
+                                grew = True
+                tests, calls_with = [], []
+                for b2 in body:
+                    for sx in f.blocks[b2]["s"]:
+                        if sx["k"] == "assign" and sx["rv"]["k"] == "bin" and sx["rv"]["op"] in CMP and sx["lhs"] not in bound_conds:
+                            ops = [place_of(sx["rv"]["a"]), place_of(sx["rv"]["b"])]
+                            if any(o and len(o) == 1 and o[0] in copies for o in ops):
+                                tests.append(sx.get("ln"))
+                    t2 = f.blocks[b2]["t"]
+                    if t2["k"] == "call":
+                        for a in t2["args"]:
+                            pl = place_of(a)
+                            if pl and pl[0] in carriers:
+                                calls_with.append((last(norm(inst_of(t2))), t2.get("ln")))
+                n += 1
+                ck.saw(f)
+                name = f.debug_names().get(cur, "_%d" % cur)
+                key = "%s:index[%s]" % (keyname(p, f), name)
+                if tests:
+                    ck.proved(rule, key, f.loc(t["ln"]), "the loop tests the cursor `%s` (line%s %s) besides indexing with it" % (name, "s" if len(set(tests)) > 1 else "", sorted({x for x in tests if x})[:6]))
+                elif calls_with and _oor_goes_on(p, f, cfg, body, bi, carriers):
+                    ck.refuted(rule, key, f.loc(t["ln"]), "the loop indexes a slice with `%s`, which only grows, and never compares it with anything; the only other look at it is a closure that answers `slice.get(%s).is_some_and(..)`, i.e. false once `%s` is past the end, and on false the loop goes on to the index: a text in which the awaited element never comes (markup left unterminated while it is typed) runs the index off the end and panics" % (name, name, name))
+                elif calls_with:
+                    ck.undecided(rule, key, f.loc(t["ln"]), "the loop indexes with `%s`, which only grows, and never compares it with anything; it only hands it to %s - whether an out-of-range cursor makes one of these leave the loop is beyond this rule; if not, a text in which the awaited element never comes runs the index off the end and panics" % (name, sorted({c for c, _ in calls_with})))
+                else:
+                    ck.refuted(rule, key, f.loc(t["ln"]), "the loop indexes a slice with `%s`, which only grows, and no test in the loop looks at `%s`: every exit depends on the content of the elements, so a text in which that content never comes (markup left unterminated while it is typed) runs the index off the end and panics" % (name, name))
+    ck.floor(rule, "loops that index a slice with a monotone cursor", n, 2)
+
+
+def _oor_goes_on(p, f, cfg, body, assert_bb, carriers):
+    """every call in the loop that receives the cursor is a closure of the form `slice.get(idx).is_some_and(..)` /
+    `.is_some()` (false when idx is out of range), and from the false edge of each such call every way on inside the
+    loop passes the index check: an out-of-range cursor is not stopped by them."""
+    sites = []
+    for b2 in body:
+        t2 = f.blocks[b2]["t"]
+        if t2["k"] == "call" and any((place_of(a) or [None])[0] in carriers for a in t2["args"]):
+            sites.append((b2, t2))
+    if not sites:
+        return False
+    for b2, t2 in sites:
+        g = None
+        for a in t2["args"]:
+            ty = f.local_tystr((place_of(a) or [0])[0]) or ""
+            if "{closure" in ty:
+                for c in p.closures_of(f.name):
+                    if last(c.name) in ty or c.name.rsplit("::", 1)[-1] in ty:
+                        g = c
+        if g is None:
+            cs = [c for c in p.closures_of(f.name) if norm(c.name) == norm(inst_of(t2)) or c.name == inst_of(t2)]
+            g = cs[0] if cs else None
+        if g is None:
+            return False
+        calls = [(bi, t) for bi, t in g.calls()]
+        names = [last(norm(inst_of(t))) for _, t in calls]
+        if sorted(names) not in (["get", "is_some_and"], ["get", "is_some"]):
+            return False
+        gt = [t for _, t in calls if last(norm(inst_of(t))) == "get"][0]
+        it = [t for _, t in calls if last(norm(inst_of(t))).startswith("is_some")][0]
+        if place_of(it["args"][0]) != gt["dest"] or it["dest"] != [0]:
+            return False
+        if any(sx["k"] == "assign" and sx["rv"]["k"] == "bin" and sx["rv"]["op"] in ("Lt", "Le", "Gt", "Ge") for b in g.blocks for sx in b["s"]):
+            return False
+        # the false edge of the closure's answer in the loop
+        e = bool_edges(f, b2)
+        if not e:
+            return False
+        false_blk = e[1]
+        outside = [b for b in range(cfg.n) if b not in body]
+        if false_blk not in body:
+            return False
+        # can control go from the false edge back to the loop head or out of the loop without passing the index check?
+        if cfg.reaches(false_blk, outside + [min(body)], avoid=[assert_bb]) and false_blk != assert_bb:
+            return False
+    return True
 
 def _copy_src(f, l):
     for _ in range(4):
